@@ -82,14 +82,14 @@ func maybeGC() {
 
 // StateOp is one valid operation of the descriptor-table prefix.
 type StateOp struct {
-	Op      string `json:"op"`                // open | close | renumber | accept | readdir | setflags | seek
+	Op      string `json:"op"`                // open | close | closefd | renumber | accept | readdir | setflags | seek
 	Dir     int32  `json:"dir,omitempty"`     // open: directory descriptor (a preopen)
 	Path    string `json:"path,omitempty"`    // open
 	Oflags  uint32 `json:"oflags,omitempty"`  // open
 	Rights  uint64 `json:"rights,omitempty"`  // open
 	Fdflags uint32 `json:"fdflags,omitempty"` // open, setflags, accept
 	Sel     int    `json:"sel,omitempty"`     // index (mod count) into the descriptors opened so far
-	To      int32  `json:"to,omitempty"`      // renumber target
+	To      int32  `json:"to,omitempty"`      // renumber target; closefd: the standard stream (0..2) to close
 	N       uint32 `json:"n,omitempty"`       // readdir: buffer length; seek: offset
 }
 
@@ -547,6 +547,12 @@ func (w *world) prefix() {
 			if fd, ok := w.sel(op.Sel); ok {
 				if e, o := w.call("fd_close", uint64(uint32(fd))); o.Kind == wz.KOK && e == 0 {
 					w.drop(fd)
+				}
+			}
+		case "closefd": // close a standard stream (valid: a guest may close its stdio)
+			if op.To >= 0 && op.To <= 2 {
+				if e, o := w.call("fd_close", uint64(op.To)); o.Kind == wz.KOK && e == 0 {
+					w.drop(op.To)
 				}
 			}
 		case "renumber":
